@@ -273,8 +273,11 @@ fn compile_both_levels(src: &str) -> Value {
             .collect();
         decl.sort_by(|a, b| a["name"].as_str().cmp(&b["name"].as_str()));
         let modeltext = model.to_string();
+        // the Model's own trees (before linearization, which may drop rows it finds redundant)
+        let mj = crate::conv::model_json(&model).ok();
         match rooc::Linearizer::linearize(model) {
-            Ok(lm) => json!({"out":"ok","lm":lm_bits(&lm),"connames":names,"decl":decl,"modeltext":modeltext,"lmtext":lm.to_string()}),
+            Ok(lm) => json!({"out":"ok","lm":lm_bits(&lm),"connames":names,"decl":decl,"modeltext":modeltext,"lmtext":lm.to_string(),
+                             "has_model":mj.is_some(),"model":mj.unwrap_or(json!({}))}),
             Err(e) => json!({"out":"linearize_error","why":e.to_string()}),
         }
     }));
